@@ -131,3 +131,27 @@ Theorem C08_float_V_total :
        f <> Fother -> level_out level = false -> is_val (gen_V_f f level y z) = true.
 Proof. exact gen_V_f_total. Qed.
 Print Assumptions C08_float_V_total.
+
+(* ======================================================================== *)
+(* WEIGHTED sample average of the quantile identification function (proofs/WeightedQuantile.v): the GENERATED
+   function is 1{z >= y} - level, its weighted sum is (weight of the observations <= prediction) - level * total
+   weight, i.e. the weighted average is the weighted share minus the level; the left-limit companion uses "<".
+   Around a weighted quantile the two have the documented signs. *)
+From Coq Require Import Reals.
+From MD Require proofs.WeightedQuantile proofs.Consistency theory.Bregman.
+
+Theorem C08_weighted_quantile_sum :
+  forall (a : R) (S : list (R * R)) (t : R),
+       (0 < a < 1)%R ->
+       (forall y : R, gen_V Fquantile a y t = Ok (Bregman.Vp_q a y t)) /\
+       Consistency.wsumV (Bregman.Vp_q a) S t = (WeightedQuantile.wle S t - a * WeightedQuantile.wtot S)%R /\
+       Consistency.wsumV (Bregman.Vm_q a) S t = (WeightedQuantile.wlt S t - a * WeightedQuantile.wtot S)%R.
+Proof. exact WeightedQuantile.wquantile_ident_sum. Qed.
+Print Assumptions C08_weighted_quantile_sum.
+
+Theorem C08_weighted_quantile_sign :
+  forall (a : R) (S : list (R * R)) (t : R),
+       WeightedQuantile.is_wquantile a S t ->
+       (Consistency.wsumV (Bregman.Vm_q a) S t <= 0 <= Consistency.wsumV (Bregman.Vp_q a) S t)%R.
+Proof. exact WeightedQuantile.wquantile_ident_sign. Qed.
+Print Assumptions C08_weighted_quantile_sign.
